@@ -11,7 +11,8 @@ PROOF_MODULES = ["Compute.Lemmas.C19Rng", "Compute.Lemmas.C19Resample", "Compute
 REQUIRED_THEOREMS = [
     "Cv.C19.bootstrap_spec", "Cv.C19.jackknife_spec", "Cv.C19.shuffle_perm", "Cv.C19.shuffle_two_pairs",
     "Cv.C19.length_one", "Cv.C19.f64_range", "Cv.C19.u64LessThan_lt", "Cv.C19.i64InRange_range",
-    "Cv.C19.lemire_uniform",
+    "Cv.C19.lemire_uniform", "Cv.C19.u64LessThan_accepts", "Cv.C19.u64LessThan_fuel_irrelevant",
+    "Cv.C19.bootstrap_none", "Cv.C19.shuffle_none", "Cv.C19.shuffle_two_none", "Cv.C19.shuffle_two_unequal",
 ]
 RULE = ("per RNG seed (100 quick / 10^4 thorough): bootstrap (length 1..2000, 1..200 resamples), jackknife, shuffle, "
         "shuffle_two on distinct / repeated / constant / special-value data (NaN, ±inf, ±0, subnormal), plus raw generator "
@@ -90,9 +91,10 @@ def gen(rng, tier):
     cover = Counter()
     nseeds = 100 if tier == "quick" else 10000
     # budgets (tokens per request) keep quick under a minute and thorough under 15 minutes
-    boot_budget = 60000 if tier == "quick" else 30000
-    jack_cap = 400 if tier == "quick" else 250
-    big_every = 50 if tier == "quick" else 250      # one full-size request (2000 x 200 / jack 2000) per that many seeds
+    boot_budget = 60000 if tier == "quick" else 6000
+    jack_cap = 400 if tier == "quick" else 80
+    big_every = 50 if tier == "quick" else 500      # one full-size bootstrap (≈2000 x 200) per that many seeds
+    jack_big = {49: (800, 1000)} if tier == "quick" else {999: (1800, 2000), 5999: (1990, 2000)}
     for k in range(nseeds):
         seed = rng.u64() if k % 4 else rng.choice([0, 1, 2, (1 << 64) - 1, 1 << 63, k])
         big = (k % big_every == big_every - 1)
@@ -109,7 +111,7 @@ def gen(rng, tier):
         cover["boot:n=1"] += (n == 1)
         cover["boot:n>=1000"] += (n >= 1000)
         # jackknife
-        n = pick_n(rng, 2000 if (big and k % (2 * big_every) == big_every - 1) else jack_cap)
+        n = rng.randint(*jack_big[k]) if k in jack_big else pick_n(rng, jack_cap)
         kind = rng.choice(KINDS)
         lines.append("jack " + vecs(mkdata(rng, n, kind)))
         cover["jack:" + kind] += 1
